@@ -1315,7 +1315,11 @@ func gen(seed uint64, tier string) {
 	}
 	// wave 3 families on their own random stream (the cases of the older families stay what they were)
 	r2 := vproto.NewRng(seed*0x9e3779b97f4a7c15 + 19)
-	for i := 0; i < n; i++ {
+	n3 := n
+	if tier == "thorough" {
+		n3 = n / 2 // phase 4: 600 star + 300 chain + 100 wrap keep the thorough tier under ~20 min (quick tier unchanged)
+	}
+	for i := 0; i < n3; i++ {
 		c := genStar(r2)
 		c.addHistory(r2, 0.15)
 		if r2.Chance(0.3) {
